@@ -28,7 +28,7 @@ def gen_direct(rng, long=False):
     fps = rng.choice([1, 2, 3, 9])
     bucket = rng.choice([1, 2, 3, 6])
     minlen = rng.choice([1, 1, 2, 3])
-    k = rng.choice([1, 2, 3, 7, 50, 111, 1000])
+    k = rng.choice([1, 2, 3, 7, 50, 111, 500, 833, 1000])      # min-refill = k * min-length frames ms: whole and fractional seconds
     cap, ml = bucket * fps, minlen * fps
     frame = max(1, 1000 // fps)
     steps, up = [], False
@@ -183,6 +183,8 @@ def run(ctx):
     violations, others, seen = [], {}, set()
     for (line, tags) in viol:
         for t in tags:
+            if t.startswith("ANY:"):
+                t = prop + t[3:]
             if not t.startswith(prop + ":"):
                 others[t] = others.get(t, 0) + 1
                 continue
